@@ -81,6 +81,7 @@ class SymAngle:
         return 1
 
     def mod2pi(s):
+        # value mod 2 pi depends on the direction only
         return SymAngle(s.x, s.y, 0, True, None)
 
     def principal_negative(s):
@@ -112,8 +113,8 @@ class SymAngle:
         if o.is_const() and not o.num:
             return s
         q = _pi_multiple(o)
-        if q is not None and (q / 2).denominator == 1 and not s.norm and s.k is not None:
-            return SymAngle(s.x, s.y, s.k + int(q / 2), False, None)
+        if q is not None and (q / 2).denominator == 1 and s.k is not None:
+            return SymAngle(s.x, s.y, s.k + int(q / 2), s.norm, None)
         if q is not None and q.denominator in (1, 2) and s.k is None:
             # rotation by a multiple of pi/2 of an angle known mod 2 pi
             x, y = s.x, s.y
@@ -162,7 +163,13 @@ class SymAngle:
         val = mpmath.atan2(c.value(cy), c.value(cx))
         if s.norm and val < 0:
             val += 2 * mpmath.pi
-        a = c.opaque_atom("atan2n" if s.norm else "atan2", [cy, cx], val)
+
+        def info(a):
+            lo = Cond.poly(a.num, ">=") if s.norm else Cond.poly((a + c.pi).num, ">")
+            hi = Cond.poly((a - 2 * c.pi).num, "<") if s.norm else Cond.poly((a - c.pi).num, "<=")
+            return [lo, hi]
+
+        a = c.opaque_atom("atan2n" if s.norm else "atan2", [cy, cx], val, info)
         out = Sym(a.gen)
         if s.k:
             out = out + 2 * s.k * c.pi
@@ -172,24 +179,18 @@ class SymAngle:
     def _cmp(s, o):
         """-1, 0, 1 for s < o, s == o, s > o (exact, forks)."""
         if isinstance(o, SymAngle):
-            if s.norm and o.norm:
-                return _cmp_norm(s, o)
-            if s.k is not None and o.k is not None and not s.norm and not o.norm:
-                if s.k != o.k:
-                    return -1 if s.k < o.k else 1
-                return _cmp_principal(s, o)
-            if s.norm != o.norm and (s.k is not None or s.norm) and (o.k is not None or o.norm):
-                a, b = s._as_norm_plus_turns(), o._as_norm_plus_turns()
-                if a[1] != b[1]:
-                    return -1 if a[1] < b[1] else 1
-                return _cmp_norm(a[0], b[0])
-            raise NotImplementedError("comparison of angles known modulo 2 pi")
+            if s.k is None or o.k is None:
+                raise NotImplementedError("comparison of angles known modulo 2 pi")
+            a, b = s._as_norm_plus_turns(), o._as_norm_plus_turns()
+            if a[1] != b[1]:
+                return -1 if a[1] < b[1] else 1
+            return _cmp_norm(a[0], b[0])
         o = _S(o)
         return s._cmp_scalar(o)
 
     def _as_norm_plus_turns(s):
         if s.norm:
-            return s, 0
+            return SymAngle(s.x, s.y, 0, True), s.k
         # principal p in (-pi, pi]: p = n - 2 pi if y < 0 else n   (n normalised)
         t = s.k - 1 if s.principal_negative() else s.k
         return SymAngle(s.x, s.y, 0, True), t
@@ -251,7 +252,7 @@ class SymAngle:
 
     def __float__(s):
         c = core.CTX
-        v = math.atan2(float(c.value(s.y)), float(c.value(s.x)))
+        v = math.atan2(float(c.value(_S(s.y))), float(c.value(_S(s.x))))
         if s.norm and v < 0:
             v += 2 * math.pi
         return v + 2 * math.pi * (s.k or 0)
